@@ -71,8 +71,11 @@ pub fn router_outcome(c: &RouterCase) -> Outcome {
     let multi = c.peers.len() >= 2;
     let nonfirst = c.ops.iter().any(|op| matches!(op, Op::Send(Target::Peer(j), _) if *j > 0) || matches!(op, Op::Send(Target::Unknown | Target::Oversized | Target::Empty, _)));
     o.nontrivial = multi && nonfirst;
-    if c.peers.iter().any(|p| p.identity.is_some()) {
+    if c.peers.iter().any(|p| p.identity.as_ref().map(|i| !i.is_empty()).unwrap_or(false)) {
         o.class("announced-identity");
+    }
+    if c.peers.iter().filter(|p| p.identity.as_ref().map(|i| i.is_empty()).unwrap_or(false)).count() >= 2 {
+        o.class("several-peers-announcing-an-empty-identity");
     }
     if c.peers.iter().any(|p| p.lib) {
         o.class("library-peer-with-identity-option");
@@ -125,7 +128,13 @@ pub fn router_outcome(c: &RouterCase) -> Outcome {
                     match sim.run(a).await {
                         Ok(Some(Out::Attach(Ok(id)))) => {
                             if let Some(w) = &want_id {
-                                if &id != w {
+                                if w.is_empty() {
+                                    // a present-but-empty Identity (what anonymous libzmq peers
+                                    // send) names nobody: the peer gets a unique one
+                                    if id.is_empty() {
+                                        fail!(f, "C09/identity/empty-identity-not-replaced", "peer {} announced an empty Identity and was registered under the empty identity", j);
+                                    }
+                                } else if &id != w {
                                     fail!(f, "C09/identity/announced-identity-not-used", "peer {} announced {} but attach returned {}", j, refcodec::brief(w), refcodec::brief(&id));
                                 }
                             }
@@ -235,7 +244,7 @@ pub fn router_outcome(c: &RouterCase) -> Outcome {
                     }
                     Op::Rejoin(j) => {
                         let j = *j % peers.len();
-                        let Some(idh) = c.peers[j].identity.as_ref() else { continue };
+                        let Some(idh) = c.peers[j].identity.as_ref().filter(|i| !i.is_empty()) else { continue };
                         let PeerRt::Raw(l) = &peers[j] else { continue };
                         if next[j] != sent[j].len() {
                             continue;
@@ -430,7 +439,10 @@ pub fn gen_router(s: &mut Src<'_>) -> RouterCase {
     for _ in 0..n {
         let lib = s.chance(1, 5);
         let socket_type = if lib { s.pick(&["DEALER", "REQ"]) } else { s.pick(&["DEALER", "DEALER", "REQ", "ROUTER"]) }.to_string();
-        let identity = if s.chance(3, 5) {
+        let identity = if !lib && s.chance(1, 6) {
+            // announced, but empty
+            Some(String::new())
+        } else if s.chance(3, 5) {
             let l = s.pick(&[1usize, 2, 5, 16, 17, 254, 255]);
             let mut id = fill(s.next() as u32, l);
             id[0] |= 1;
@@ -442,7 +454,7 @@ pub fn gen_router(s: &mut Src<'_>) -> RouterCase {
     }
     for i in 0..peers.len() {
         for j in 0..i {
-            if peers[i].identity.is_some() && peers[i].identity == peers[j].identity {
+            if peers[i].identity.as_ref().map(|x| !x.is_empty()).unwrap_or(false) && peers[i].identity == peers[j].identity {
                 peers[i].identity = None;
             }
         }
@@ -544,6 +556,24 @@ pub fn run(ctx: &Ctx) -> (Report, PropertyMeta) {
             }
         }
     }
+    // two and three peers that announce an EMPTY identity (anonymous libzmq peers do)
+    for st in ["DEALER", "REQ", "ROUTER"] {
+        for n in [2usize, 3] {
+            let mut peers: Vec<PeerSpec> = (0..n).map(|_| PeerSpec { socket_type: st.into(), identity: Some(String::new()), lib: false }).collect();
+            peers.push(PeerSpec { socket_type: "DEALER".into(), identity: Some("aa".into()), lib: false });
+            let mut ops = vec![];
+            for j in 0..peers.len() {
+                ops.push(Op::PeerSend(j, vec![2]));
+                ops.push(Op::Deliver(j, 0));
+            }
+            ops.push(Op::RecvAll);
+            for j in 0..peers.len() {
+                ops.push(Op::Send(Target::Peer(j), vec![1, 0]));
+            }
+            ops.push(Op::Send(Target::Empty, vec![1]));
+            cases.push(RouterCase { peers, ops });
+        }
+    }
     let r = run_cases(ctx, "router", &cases, router_outcome);
     report.exhaustive_parts.push(format!("3 peer types x 6 identity lengths x raw/library peer, fixed history touching every target kind: {} cases", cases.len()));
     report.merge(r);
@@ -561,11 +591,12 @@ pub fn run(ctx: &Ctx) -> (Report, PropertyMeta) {
     health_abs(&mut report, "departed-target", 300);
     health_abs(&mut report, "several-departures", 100);
     health_abs(&mut report, "identity-reused-by-a-returning-peer", 300);
+    health_abs(&mut report, "several-peers-announcing-an-empty-identity", 300);
     health_abs(&mut report, "library-peer-with-identity-option", 300);
 
     let meta = PropertyMeta {
         level: "exploration",
-        rule: "proptest histories on a real ROUTER socket with 1..5 peers (raw DEALER/REQ/ROUTER with announced 1..255-byte or auto-assigned identities, or library DEALER/REQ sockets using SocketOptions::peer_identity over a pipe pair): peers write tagged messages, bytes are delivered in generated portions, the application interleaves recv with send([target, ...]) to every live identity, a never-seen identity, a 256-byte frame, an empty frame and the identity of a peer that was reset or closed in an orderly way (like on TCP, writes towards a closed peer still succeed, so only the socket's bookkeeping can refuse), including several departures in one history, and peers with a fixed identity that go away and come back under it before the socket has observed the departure (the identity then means the new connection; the replaced connection must not be written to). Oracle: every recv result's first frame equals the identity of the connection the tagged payload was written on (= attach's return value = announced bytes, pairwise distinct), remaining frames equal what was sent, in per-connection order; after send returns Ok exactly the target's wire grew by the reference encoding of frames[1..]; on Err no wire grew; absent / oversized / empty / departed targets fail. Non-trivial = >= 2 peers and a send to a non-first peer or an absent identity; distinct by case".into(),
+        rule: "proptest histories on a real ROUTER socket with 1..5 peers (raw DEALER/REQ/ROUTER with announced 1..255-byte identities, an announced EMPTY identity (replaced by a unique one) or no Identity property (auto-assigned), or library DEALER/REQ sockets using SocketOptions::peer_identity over a pipe pair): peers write tagged messages, bytes are delivered in generated portions, the application interleaves recv with send([target, ...]) to every live identity, a never-seen identity, a 256-byte frame, an empty frame and the identity of a peer that was reset or closed in an orderly way (like on TCP, writes towards a closed peer still succeed, so only the socket's bookkeeping can refuse), including several departures in one history, and peers with a fixed identity that go away and come back under it before the socket has observed the departure (the identity then means the new connection; the replaced connection must not be written to). Oracle: every recv result's first frame equals the identity of the connection the tagged payload was written on (= attach's return value = announced bytes, pairwise distinct), remaining frames equal what was sent, in per-connection order; after send returns Ok exactly the target's wire grew by the reference encoding of frames[1..]; on Err no wire grew; absent / oversized / empty / departed targets fail. Non-trivial = >= 2 peers and a send to a non-first peer or an absent identity; distinct by case".into(),
         assumptions: vec![
             "a departed peer is asserted on only after the socket has observed its end (a recv consumed the EOF / error)".into(),
             "one-frame sends are outside the statement".into(),
